@@ -143,6 +143,40 @@ impl Spec for ColsDict {
     }
 }
 
+/// `ColumnsRegion<HuffmanContainer<u8>>`: rows of symbol strings, each column Huffman coded after a merge.
+pub struct ColsHuff;
+impl Spec for ColsHuff {
+    type V = Vec<Vec<u8>>;
+    type R = flatcontainer::ColumnsRegion<HuffmanContainer<u8>, IO>;
+    type M = ();
+    const MODELLED: bool = false;
+    fn m_push(_m: &mut (), _v: &Self::V) -> MIdx {
+        MIdx::Opaque
+    }
+    fn m_clear(_m: &mut ()) {}
+    fn m_merged(_s: &[&()]) {}
+    fn m_layout(_m: &(), _out: &mut Vec<Slot>) {}
+    fn name() -> String {
+        "ColumnsRegion<HuffmanContainer<u8>, IndexOptimized>".into()
+    }
+    fn canon_push(r: &mut Self::R, v: &Self::V) -> usize {
+        r.push(v.iter().map(|c| c.as_slice()).collect::<Vec<&[u8]>>())
+    }
+    fn check<'a>(item: RI<'a, Self>, v: &Self::V) -> Result<(), String> {
+        if item.len() != v.len() || item.is_empty() != v.is_empty() {
+            return Err(format!("row len() = {}, pushed {} cells", item.len(), v.len()));
+        }
+        for (i, x) in v.iter().enumerate() {
+            Huff::<u8>::check(item.get(i), x).map_err(|e| format!("get({i}): {e}"))?;
+        }
+        let got = item.iter().take(v.len() + 1).count();
+        if got != v.len() {
+            return Err(format!("iter() yields {got} cells, pushed {}", v.len()));
+        }
+        Ok(())
+    }
+}
+
 // ----- value alphabets -----------------------------------------------------------------------
 
 pub fn strings() -> Vec<String> {
@@ -909,6 +943,21 @@ pub fn visit_all<Vz: Visitor>(v: &mut Vz) {
                 .form("ReadColumns (borrowed from owned)", f::borrowed_item::<S>)
                 .debug()
                 .flags("dense dictionary"),
+        );
+    }
+
+    {
+        type S = ColsHuff;
+        type R = <S as Spec>::R;
+        let vals: Vec<Vec<Vec<u8>>> = vec![vec![], vec![vec![1]], vec![vec![1, 1, 2], vec![3]], vec![vec![2], vec![], vec![4, 4, 5]]];
+        v.visit(
+            Entry::<S>::new(vals)
+                .form("Vec<&[u8]>", |r: &mut R, v: &Vec<Vec<u8>>| r.push(v.iter().map(|c| c.as_slice()).collect::<Vec<&[u8]>>()))
+                .form("PushIter<Vec<&[u8]>>", |r: &mut R, v: &Vec<Vec<u8>>| {
+                    r.push(flatcontainer::PushIter(v.iter().map(|c| c.as_slice()).collect::<Vec<&[u8]>>()))
+                })
+                .form("ReadColumns (region-backed)", f::read_item::<S>)
+                .flags("dense huffman noheap noreserve"),
         );
     }
 
